@@ -141,12 +141,13 @@ package errbase
 //@   requires newType != nil
 //@   requires resolveKey(backwardRegistry, previousPkgPath + "/" + previousTypeName) != fullNameT(typeof(newType))
 //@   maypanic when backwardRegistry.has(fullNameT(typeof(newType)))
-//@   ensures backwardRegistry == old(backwardRegistry)
-//@   ensures backwardRegistry.has(fullNameT(typeof(newType))) && backwardRegistry[fullNameT(typeof(newType))] == resolveKey(old(backwardRegistry), previousPkgPath + "/" + previousTypeName)
+//@   ensures ref(backwardRegistry) == old(ref(backwardRegistry))
+//@   ensures backwardRegistry.has(fullNameT(typeof(newType)))
+//@   ensures backwardRegistry[fullNameT(typeof(newType))] == resolveKey(old(backwardRegistry), previousPkgPath + "/" + previousTypeName)
 //@   ensures forall x TypeKey :: x != fullNameT(typeof(newType)) ==> backwardRegistry.has(x) == old(backwardRegistry).has(x)
 //@   ensures forall x TypeKey :: x != fullNameT(typeof(newType)) && old(backwardRegistry).has(x) ==> backwardRegistry[x] == (old(backwardRegistry)[x] == fullNameT(typeof(newType)) ? resolveKey(old(backwardRegistry), previousPkgPath + "/" + previousTypeName) : old(backwardRegistry)[x])
 //@   maintains migrations_closed
-//@   loop 1: invariant backwardRegistry == old(backwardRegistry)
+//@   loop 1: invariant ref(backwardRegistry) == old(ref(backwardRegistry))
 //@           invariant forall x TypeKey :: backwardRegistry.has(x) == (old(backwardRegistry).has(x) || x == newKey)
 //@           invariant backwardRegistry[newKey] == prevKey
 //@           invariant forall x TypeKey :: x != newKey && old(backwardRegistry).has(x) ==> backwardRegistry[x] == ((x in $visited) && old(backwardRegistry)[x] == newKey ? prevKey : old(backwardRegistry)[x])
